@@ -112,6 +112,8 @@ func H_C12(op, router, entry, target int) {
 // symbolic choice of later requests exactly like one on which the change was made with no request in flight.
 // op, router, entry, target as in H_C12; pre: preemption bound
 func H_C12_sched(op, router, entry, target, pre int) {
+	three := router >= 10 // thorough: a third thread makes a second change of another kind
+	router %= 10
 	type world struct {
 		c           *Container
 		a, b, extra *WebService
@@ -145,6 +147,14 @@ func H_C12_sched(op, router, entry, target, pre int) {
 			w.a.Route(w.a.POST("/x").To(func(req *Request, resp *Response) { w.hits = append(w.hits, "/a/x") }))
 		case 3:
 			w.a.RemoveRoute("/a/s", "GET")
+		}
+	}
+	mutate2 := func(w *world) {
+		switch op {
+		case 0, 1:
+			w.b.Route(w.b.POST("/z").To(func(req *Request, resp *Response) { w.hits = append(w.hits, "/b/z") }))
+		default:
+			w.c.Add(w.extra)
 		}
 	}
 	type answer struct {
@@ -181,19 +191,32 @@ func H_C12_sched(op, router, entry, target, pre int) {
 	var got answer
 	verifSpawn(func() { got = serve(w, cm, cp) })
 	verifSpawn(func() { mutate(w) })
+	if three {
+		verifSpawn(func() { mutate2(w) })
+	}
 	verifRunSchedules(pre, vMsgStuck12)
 	verifCover("ran")
 	// reference worlds: before the change, and after it was made with no request in flight
 	before, after := build(), build()
 	mutate(after)
 	ab, aa := serve(before, cm, cp), serve(after, cm, cp)
+	// recorded finding: the OPTIONS filter walks the registrations a second time
+	verifKnown("options-filter-second-walk", entry == 1 && op == 1 && target == 2 && got.status == 200 && got.hits == "" && got.allow == "")
+	if three {
+		// the second change touches another service: the request's answer may also be that of the worlds in which only
+		// the second, or both changes were made; later requests see both
+		only2 := build()
+		mutate2(only2)
+		mutate2(after)
+		a2, a12 := serve(only2, cm, cp), serve(after, cm, cp)
+		verifAssert(got == ab || got == aa || got == a2 || got == a12, "C12: a request served while registrations change is answered according to no registration state that existed during it")
+		aa = got // judged above
+	}
 	verifObserveInt("status", got.status)
 	verifObserveStr("hits", got.hits)
 	verifObserveStr("allow", got.allow)
 	verifObserveStr("answer-before", vItoa(ab.status)+" "+ab.hits+" "+ab.allow)
 	verifObserveStr("answer-after", vItoa(aa.status)+" "+aa.hits+" "+aa.allow)
-	// recorded finding: the OPTIONS filter walks the registrations a second time
-	verifKnown("options-filter-second-walk", entry == 1 && op == 1 && target == 2 && got.status == 200 && got.hits == "" && got.allow == "")
 	verifAssert(got == ab || got == aa, "C12: a request served while registrations change is answered according to no registration state that existed during it")
 	if ab == aa {
 		verifCover("unaffected-request")
@@ -203,7 +226,7 @@ func H_C12_sched(op, router, entry, target, pre int) {
 		verifCover("saw-the-old-state")
 	}
 	// later requests see exactly the changed registrations
-	probes := [][2]string{{"GET", "/a/r"}, {"GET", "/a/s"}, {"POST", "/a/x"}, {"GET", "/b/r"}, {"GET", "/c/r"}, {"OPTIONS", "/a/x"}, {"OPTIONS", "/a/s"}, {"OPTIONS", "/c/r"}, {"GET", "/a/x"}}
+	probes := [][2]string{{"GET", "/a/r"}, {"GET", "/a/s"}, {"POST", "/a/x"}, {"GET", "/b/r"}, {"GET", "/c/r"}, {"OPTIONS", "/a/x"}, {"OPTIONS", "/a/s"}, {"OPTIONS", "/c/r"}, {"GET", "/a/x"}, {"POST", "/b/z"}, {"OPTIONS", "/b/z"}}
 	for _, p := range probes {
 		x, y := serve(w, p[0], p[1]), serve(after, p[0], p[1])
 		verifAssert(x == y, "C12: after a registration change that overlapped a request, later requests are not answered according to the changed registrations")
